@@ -46,8 +46,13 @@ for fn in sorted(glob.glob(ROOT + "/seeded/*/meta.json")):
             det += " — patch re-based by the lead on /repo 2956bb2 (original kept as patch-orig-pre2956bb2.diff)"
     need = m.get("needs_to_manifest", "")[:260]
     seeds.append(f"| {m['id']} | {need} | {det} |")
-sd = ("Independent sub-agents (given only the property text and a scratch worktree) wrote two property-breaking changes per property that keep the 208 doctests green; "
-      "each was confirmed by the lead (tools/confirm_seed.sh) and is kept under seeded/<id>/. Detection is measured by tools/seedsweep.py (quick tier, isolated copies):\n\n"
+sd = ("Independent sub-agents (given only the property text and a scratch worktree, nothing from /verif) wrote property-breaking changes that keep the 208 doctests green, "
+      "in five rounds: A/B and C/D (sessions 2-3), E/F (session 3), G/H and I/J (session 4, written against the repaired tree of their time) - two per property and round, 198 in all; "
+      "each was confirmed by the lead in a fresh worktree (tools/confirm_seed.sh: doctests green with the patch, demonstration fails with / passes without it), re-confirmed against the "
+      "final /repo HEAD (tools/reconfirm_seed.sh; patches that no longer applied were re-based by hand, changes that a later fix: commit made behaviour-preserving are marked STALE) and is kept "
+      "under seeded/<id>/. The table is the FINAL sweep (tools/seedsweep.py via tools/sweepq.sh: quick tier, isolated scratch copies of /verif and of /repo HEAD with the patch applied, run with "
+      "free memory): the property's own check, plus the checks named in seeded/<id>/also.txt. Every non-stale change is reported by its own property's check; the remaining 'missed' entries are "
+      "cross-property runs (a change written against one property that another property's check does not see) and the stale change C06-E. Per-round baseline misses and what closed them: Appendix D.\n\n"
       "| seeded change | what it is / needs (from its description) | checks run -> result |\n|---|---|---|\n" + "\n".join(seeds))
 
 ev = []
